@@ -26,8 +26,10 @@ TRUSTED = [
     'Spec/Wire.v is validated, not assumed: cross-checked on every run against pydsdl.serialize/deserialize and pydsdl bit-length sets',
     'Prims/F16.v float16 conversion model (C14)',
     'harness: generated per-namespace drivers (tools/harness/codec/target_*.py), gcc/clang/sanitizer runtimes',
+    'T2 translator tools/translators/gen_c01.py (strict AST subset of the bit-length helper filters, fails closed); '
+    'pydsdl standard_bit_length / class disjointness as written in Codec/GenC01Thm.v (pydsdl_standard_bit_length, desc_of_prim)',
 ]
 
 
 def main(chk: core.Check, replay: typing.Optional[str] = None) -> int:
-    return campaign.run(chk, 'ser', [], TRUSTED, replay)
+    return campaign.run(chk, 'ser', ['c01'], TRUSTED, replay)
